@@ -700,6 +700,74 @@ func migrateScenario(g *gen, feature string, idx int, corpus [][]byte) *scenario
 	return s
 }
 
+// cloneOverlapScenario: Clone with a FIXED mapping that overlaps itself on UUIDs which are KEYS of one JSON object
+// (localization.<lang>.<action uuid>, _ui.nodes.<node uuid>, _ui.stickies.<uuid>): chains A->B->C, swaps A<->B and merges
+// A->C, B->C.  Whether B's entry is moved away before A's value lands on it must not depend on anything but the input.
+func cloneOverlapScenario(g *gen, idx int) *scenario {
+	f := newFlowB(g, "Clone overlap")
+	n := g.r.Range(3, 6)
+	var actionUUIDs, nodeUUIDs []string
+	for i := 0; i < n; i++ {
+		au := g.uuid()
+		actionUUIDs = append(actionUUIDs, au)
+		node := f.addNode([]any{obj{"uuid": au, "type": "send_msg", "text": fmt.Sprintf("text %d", i)}}, nil, 1)
+		nodeUUIDs = append(nodeUUIDs, node["uuid"].(string))
+		for _, l := range []string{"fra", "spa"} {
+			f.translate(l, au, "text", []string{fmt.Sprintf("%s text %d", l, i)})
+		}
+	}
+	def := f.finish()
+	uiNodes, stickies := obj{}, obj{}
+	var stickyUUIDs []string
+	for i, nu := range nodeUUIDs {
+		uiNodes[nu] = obj{"position": obj{"left": i * 10, "top": i * 20}, "type": "execute_actions"}
+		su := g.uuid()
+		stickyUUIDs = append(stickyUUIDs, su)
+		stickies[su] = obj{"title": fmt.Sprintf("note %d", i), "body": "b", "color": "yellow", "position": obj{"left": i, "top": i}}
+	}
+	def["_ui"] = obj{"nodes": uiNodes, "stickies": stickies}
+	mapping := map[string]string{}
+	overlap := func(us []string) {
+		perm := append([]string{}, us...)
+		for i := len(perm) - 1; i > 0; i-- {
+			j := g.r.Intn(i + 1)
+			perm[i], perm[j] = perm[j], perm[i]
+		}
+		switch g.r.Intn(4) {
+		case 0: // chain
+			for i := 0; i+1 < len(perm); i++ {
+				mapping[perm[i]] = perm[i+1]
+			}
+		case 1: // swap
+			mapping[perm[0]], mapping[perm[1]] = perm[1], perm[0]
+		case 2: // merge two keys onto a third key of the same object
+			mapping[perm[0]], mapping[perm[1]] = perm[2], perm[2]
+		default: // rotation of all
+			for i := range perm {
+				mapping[perm[i]] = perm[(i+1)%len(perm)]
+			}
+		}
+	}
+	overlap(actionUUIDs)
+	overlap(nodeUUIDs)
+	overlap(stickyUUIDs)
+	p := &defParams{Feature: "overlapping-mapping", Def: mustJSON(def), Mapping: mapping}
+	s := &scenario{Family: "clone/overlapping-mapping", Index: idx, Params: p, Nontrivial: true}
+	s.run = func() (map[string][]byte, error) {
+		resetSources(false)
+		m := map[uuids.UUID]uuids.UUID{}
+		for k, v := range p.Mapping {
+			m[uuids.UUID(k)] = uuids.UUID(v)
+		}
+		b, err := migrations.Clone(p.Def, m)
+		if err != nil {
+			return nil, err
+		}
+		return map[string][]byte{"clone": b}, nil
+	}
+	return s
+}
+
 func cloneScenario(g *gen, idx int) *scenario {
 	d, _ := oldDefinition(g)
 	d["spec_version"] = "13.1.0"
